@@ -36,9 +36,8 @@ def showEv : Ev Float → String
   | Ev.step s => s!"s:{showFloatBits s.t}:{showFloatBits s.dt}"
   | Ev.post => "a"
 
-def handle (line : String) : String :=
-  match tokens line with
-  | "solve" :: rest =>
+def handleWith (slv : Cfg Float → Float → St Float × List (Ev Float)) (rest : List String) :
+    String :=
     let kv := kvs rest
     let r : Option String := do
       let dt ← (lookup kv "dt") >>= parseFloatBits?
@@ -61,13 +60,19 @@ def handle (line : String) : String :=
             dampFac := fun k => dampA.getD k nan,
             adapt := fun k => seqA.getD k none,
             cast := Float.ofNat }
-        let r := solve c dt
+        let r := slv c dt
         let evs := r.2.map showEv
         let fin := s!"e:{showFloatBits r.1.t}:{r.1.count}:{showFloatBits r.1.dt}"
         pure (" ".intercalate (evs ++ [fin]))
     match r with
     | some s => s
     | none => "bad-op"
+
+def handle (line : String) : String :=
+  match tokens line with
+  | "solve" :: rest => handleWith solve rest
+  -- the model of the code before the fix (only used to validate `Pinned.*` once)
+  | "solve-pinned" :: rest => handleWith Pinned.solve rest
   | _ => "bad-op"
 
 end PysphVerif.Driver.C10
